@@ -47,8 +47,23 @@ def sh(cmd, **kw):
     return subprocess.run(cmd, shell=True, capture_output=True, text=True, **kw)
 
 
+def ensure_worktree():
+    """the scratch worktree lives outside /repo and /verif and is removed by hand when done
+    (`git -C /repo worktree remove --force <dir>`); it is (re)created here when missing"""
+    import glob
+    if not os.path.isdir(os.path.join(WT, "src")):
+        os.makedirs(os.path.dirname(WT), exist_ok=True)
+        subprocess.run(f"git -C /repo worktree prune; git -C /repo worktree add --detach {WT} HEAD -q", shell=True, check=True)
+    so = sorted(glob.glob("/verif/.cache/cpp/*/sa_fandango_cpp_parser.so"), key=os.path.getmtime)
+    dst = os.path.join(WT, "src/fandango/language/parser/sa_fandango_cpp_parser.so")
+    if so and not os.path.exists(dst):
+        import shutil
+        shutil.copy(so[-1], dst)
+
+
 def main():
     want = set(sys.argv[1:])
+    ensure_worktree()
     out_path = "/verif/seeded/own_trials.json"
     results = json.load(open(out_path)) if os.path.exists(out_path) else {}
     override = os.environ.get("MUT_PROP")      # run another property's check against the mutant (recorded as <id>@<prop>)
